@@ -24,6 +24,33 @@ def build(ctx, mode="shipped"):
                        repo_c=psvlib.FITTER_C, libs=psvlib.FITTER_LIBS, include_force={"src/fitter/cholesky_solve.c": SHIM})
 
 
+FIX = os.path.join(psvlib.VERIF, "fixes", "C12-1.diff")
+
+
+def build_published(ctx):
+    """The code AS PUBLISHED, regenerated on every run: the working tree's cholesky_solve.c with fixes/C12-1.diff
+    reverse-applied (if the tree is already unrepaired, i.e. the fix applies forwards, the tree's file itself).
+    Returns (exe, how) or (None, why)."""
+    src = os.path.join(psvlib.REPO, "src/fitter/cholesky_solve.c")
+    d = os.path.join(ctx.scratch, "published"); os.makedirs(d, exist_ok=True)
+    dst = os.path.join(d, "cholesky_solve.c")
+    with open(src) as f: text = f.read()
+    with open(dst, "w") as f: f.write(text)
+    r = subprocess.run(["patch", "-R", "-s", "--no-backup-if-mismatch", "-F", "0", dst, FIX], stdout=subprocess.PIPE, stderr=subprocess.STDOUT, text=True)
+    how = "HEAD with fixes/C12-1.diff reverse-applied"
+    if r.returncode != 0:
+        with open(dst, "w") as f: f.write(text)
+        r2 = subprocess.run(["patch", "-s", "--dry-run", "-F", "0", dst, FIX], stdout=subprocess.PIPE, stderr=subprocess.STDOUT, text=True)
+        if r2.returncode != 0:
+            return None, "fixes/C12-1.diff applies neither backwards nor forwards to %s: %s" % (src, (r.stdout + r2.stdout)[-300:])
+        how = "the working tree itself (fixes/C12-1.diff not applied there)"
+    others = [c for c in psvlib.FITTER_C if not c.endswith("cholesky_solve.c")]
+    exe = ctx.compile("c12h_published", ["c12_harness.cpp"], mode="shipped", defines=["PHOTOSPLINE_INCLUDES_SPGLAM"], repo_cpp=[],
+                      repo_c=others + [dst], libs=psvlib.FITTER_LIBS, include_force={dst: SHIM},
+                      extra=["-I" + os.path.join(psvlib.REPO, "src/fitter")])
+    return exe, how
+
+
 def harness(ctx, exe, cmds, timeout=900):
     """Run a command script; returns (rc, list of reply lines)."""
     inp = "\n".join(cmds + ["Q"]) + "\n"
@@ -49,7 +76,19 @@ def parse_tr(line):
     h = kv(head.split()[1:]); ew = end.split(); e = kv(ew[2:])
     return {"n": int(h["n"]), "m": int(h["m"]), "policy": h.get("policy", "?"), "toks": toks.split(), "status": ew[1],
             "feasible": e.get("feasible", "-"), "calcs": e.get("calcs", "-"), "same": e.get("same", "0"), "diff": e.get("diff", "-"),
-            "sched": e.get("sched", "")}
+            "teardown": e.get("teardown", "?"), "sched": e.get("sched", "")}
+
+
+def computations(tr):
+    """per trial index: how many finished computations the code reported (worker U tokens with a data field)"""
+    cnt = [0] * tr["m"]; bad = []
+    for t in tr["toks"]:
+        f = t.split(":")
+        if len(f) == 5 and f[4].startswith("d"):
+            k, xdiff, receq = [int(v) for v in f[4][1:].split(",")]
+            if 0 <= k < tr["m"]: cnt[k] += 1
+            if xdiff != 0 or receq != 1 or not (0 <= k < tr["m"]): bad.append(t)
+    return cnt, bad
 
 
 def driver(ctx, lines, tag):
@@ -61,11 +100,13 @@ def driver(ctx, lines, tag):
 
 
 class Tally:
-    def __init__(self): self.runs = 0; self.scheds = set(); self.dead = 0; self.bad = 0; self.replayed = 0; self.ops = 0; self.by = {}
+    def __init__(self): self.runs = 0; self.scheds = set(); self.dead = 0; self.bad = 0; self.replayed = 0; self.ops = 0; self.by = {}; self.comps = 0; self.teardowns = 0
 
 
-def check_runs(ctx, T, prob, replies, what, expect_sched=None):
-    """prob: dict(pseed,nF,nneg,m,expect,resid). replies: TR lines. Oracle + model replay."""
+def check_runs(ctx, T, prob, replies, what, expect_sched=None, variant=1):
+    """prob: dict(pseed,nF,nneg,m,expect,resid). replies: TR lines. Oracle + model replay.
+    variant=1: the code under test is the working tree (model of the repaired protocol); variant=0: the regenerated published
+    code (model with repaired=false) — deadlocks are then expected behaviour and only the correspondence is checked."""
     rl, trs = [], []
     for line in replies:
         if not line.startswith("TR "): continue
@@ -75,7 +116,9 @@ def check_runs(ctx, T, prob, replies, what, expect_sched=None):
         rep = {"problem": {k: prob[k] for k in ("pseed", "nF", "nneg")}, "n_threads": tr["n"], "n_alpha": tr["m"], "schedule": tr["sched"],
                "harness_cmds": ["P %d %d %d" % (prob["pseed"], prob["nF"], prob["nneg"]), "RUN %d sched %s" % (tr["n"], tr["sched"])],
                "trace": " ".join(tr["toks"][-40:])}
-        if tr["status"] == "deadlock":
+        if tr["status"] == "deadlock" and variant == 0:
+            T.dead += 1
+        elif tr["status"] == "deadlock":
             T.dead += 1
             ctx.report(SIG_LOST if tr["toks"] and tr["toks"][-1].startswith("0:W") else "deadlock:" + (tr["toks"][-1] if tr["toks"] else "?"), rep,
                        "%s: walk_descents deadlocked with %d worker(s), n_alpha=%d: no thread runnable and the routine has not returned (last ops: %s); schedule %s"
@@ -87,7 +130,22 @@ def check_runs(ctx, T, prob, replies, what, expect_sched=None):
             T.bad += 1
             ctx.report("result-differs:" + tr["diff"], rep, "%s: result of walk_descents with %d worker(s) under schedule %s differs from the sequential result (%s)"
                        % (what, tr["n"], tr["sched"], tr["diff"]))
-        rl.append("R 1 %d %d %s %s %s %s %s %s" % (tr["n"], tr["m"], prob["resid"], tr["status"], tr["feasible"], tr["calcs"], prob["expect"], " ".join(tr["toks"])))
+        if tr["status"] == "ret":
+            # exactly-once and per-record determinism, measured on the code: every finished computation used the entry value of x,
+            # produced the oracle's record for its index, and no index was computed twice
+            cnt, badc = computations(tr); T.comps += sum(cnt)
+            if badc or any(v > 1 for v in cnt):
+                T.bad += 1
+                ctx.report("computation:" + (badc[0].split(":")[4] if badc else "twice"), rep_(prob, tr), "%s: a worker computation is not the single-threaded trial of its index (token %s) or an index was evaluated more than once (%s); %d workers, schedule %s"
+                           % (what, badc[:1], cnt, tr["n"], tr["sched"][:120]))
+            if tr["teardown"] == "bad":
+                T.bad += 1
+                ctx.report("teardown", rep_(prob, tr), "%s: pthread_mutex_destroy / pthread_cond_destroy reached while the mutex is owned, a thread waits on the condition variable, or a worker has not exited (%d workers, schedule %s)" % (what, tr["n"], tr["sched"][:120]))
+            elif tr["teardown"] == "ok": T.teardowns += 1
+            else:
+                ctx.tie_ok = False
+                if len(ctx.broken) < 5: ctx.broken.append({"kind": "walk_descents returned without destroying mutex and condition variable (teardown=%s)" % tr["teardown"], "schedule": tr["sched"]})
+        rl.append("R %d %d %d %s %s %s %s %s %s" % (variant, tr["n"], tr["m"], prob["resid"], tr["status"], tr["feasible"], tr["calcs"], prob["expect"], " ".join(tr["toks"])))
     if not rl: return
     out = driver(ctx, rl, "replay%d" % T.runs)
     if out is None: return
@@ -103,8 +161,87 @@ def check_runs(ctx, T, prob, replies, what, expect_sched=None):
                 ctx.violation({"problem": {k: prob[k] for k in ("pseed", "nF", "nneg")}, "n_threads": tr["n"], "n_alpha": tr["m"], "schedule": tr["sched"],
                                "harness_cmds": ["P %d %d %d" % (prob["pseed"], prob["nF"], prob["nneg"]), "RUN %d sched %s" % (tr["n"], tr["sched"])], "model_says": o},
                               "%s: the pthread-call trace of walk_descents/evaluate_descent (%d workers, schedule %s) is not a path of the verified protocol: %s" % (what, tr["n"], tr["sched"][:120], o))
+        elif tr["status"] == "ret" and kv(o.split()).get("cnt") != ",".join(str(v) for v in computations(tr)[0]):
+            ctx.tie_ok = False
+            if len(ctx.broken) < 6: ctx.broken.append({"kind": "evaluation counts of the code differ from the model's cnt", "model_says": o, "code": computations(tr)[0], "schedule": tr["sched"]})
         elif len(ctx.coverage["samples"]) < 5:
             ctx.coverage["samples"].append({"n_threads": tr["n"], "n_alpha": tr["m"], "policy": tr["policy"], "ops": len(tr["toks"]), "model": o})
+
+
+def rep_(prob, tr):
+    return {"problem": {k: prob[k] for k in ("pseed", "nF", "nneg")}, "n_threads": tr["n"], "n_alpha": tr["m"], "schedule": tr["sched"],
+            "harness_cmds": ["P %d %d %d" % (prob["pseed"], prob["nF"], prob["nneg"]), "RUN %d sched %s" % (tr["n"], tr["sched"])]}
+
+
+def published_phase(ctx, T, exe_head, quick, dist):
+    """Tie of the model with repaired=false (C12_lost_wakeup_reachable, C12_unrepaired_deadlocks) to the code as published."""
+    seed = ctx.seed
+    exp, how = build_published(ctx)
+    info = {"source": how}
+    dist["published_code"] = info
+    if not exp:
+        ctx.tie_ok = False; ctx.broken.append({"kind": "cannot regenerate the published code", "why": how}); return
+    lw = driver(ctx, ["L"], "lw")
+    if not lw or not lw[0].startswith("LW "):
+        ctx.tie_ok = False; ctx.broken.append({"kind": "driver does not emit the lost-wake-up witness", "reply": lw}); return
+    w = kv(lw[0].split()[1:]); n, m, sched = int(w["n"]), int(w["m"]), w["sched"]
+    info["witness"] = {"n": n, "m": m, "schedule": sched}
+    TP = Tally()
+    # (a) exactly the schedule of the Lean theorem, on problems with n_alpha = m
+    nd = 0
+    for ps in range(3):
+        p = get_prob(ctx, exp, 300 * seed + ps, 1 + ps, m - 2)
+        if not p or p["m"] != m: ctx.tie_ok = False; ctx.broken.append({"kind": "no problem with n_alpha=%d" % m}); return
+        rc, out, err = harness(ctx, exp, ["P %d %d %d" % (p["pseed"], p["nF"], p["nneg"]), "RUN %d sched %s" % (n, sched)])
+        if rc != 0: return crash(ctx, rc, err, "published code, witness schedule")
+        trs = [parse_tr(l) for l in out if l.startswith("TR ")]
+        if len(trs) != 1 or trs[0]["status"] != "deadlock" or len(trs[0]["toks"]) != len(sched.split(",")):
+            ctx.tie_ok = False; ctx.broken.append({"kind": "the witness schedule of C12_lost_wakeup_reachable does not deadlock the published code", "reply": out[-1][-300:] if out else None})
+        else: nd += 1
+        check_runs(ctx, TP, p, out, "published code, witness schedule", variant=0)
+        # the same schedule on the working tree: executable (every forced step enabled), then runs to completion
+        rc, out, err = harness(ctx, exe_head, ["P %d %d %d" % (p["pseed"], p["nF"], p["nneg"]), "RUN %d sched %s" % (n, sched)])
+        if rc != 0: return crash(ctx, rc, err, "working tree, witness schedule")
+        check_runs(ctx, T, p, out, "lost-wake-up witness schedule of the Lean theorem on the working tree")
+    info["witness_deadlocks_published_code"] = nd
+    # (b) code -> model(repaired=false): seeded schedules on the published code; returning and deadlocking runs must both be paths
+    for k in range(4 if quick else 16):
+        nF = 1 + (k * 3 + seed) % 6; nneg = (k * 5 + seed) % (nF + 1)
+        p = get_prob(ctx, exp, 2000 * seed + k, nF, nneg)
+        if not p: ctx.tie_ok = False; ctx.broken.append({"kind": "published harness failed on P"}); return
+        cmds = ["P %d %d %d" % (p["pseed"], nF, nneg)]
+        for nn in sorted(set([1, 2, 3, p["m"] + 1])):
+            cmds += ["RUN %d np" % nn, "RUN %d delayc %d" % (nn, seed + k)]
+            cmds += ["RUN %d rand %d" % (nn, seed * 31 + 7 * k + r) for r in range(3)]
+            cmds += ["RUN %d pct %d 3" % (nn, seed * 17 + k)]
+        rc, out, err = harness(ctx, exp, cmds)
+        if rc != 0: return crash(ctx, rc, err, "published code, seeded schedules")
+        check_runs(ctx, TP, p, out, "published code, seeded schedule", variant=0)
+    # (c) model(repaired=false) -> code: shortest schedules into deadlocked model states must deadlock the published code,
+    #     transition-covering schedules must be executable on it
+    for (nn, mm) in ([(1, 2), (2, 3)] if quick else [(1, 2), (1, 3), (2, 3), (2, 4), (3, 4)]):
+        p = None
+        for ps in range(40):
+            q = get_prob(ctx, exp, 7000 * seed + 50 * nn + ps, min(8, max(1, mm - 2 + (ps % 2))), mm - 2)
+            if q and q["m"] == mm: p = q; break
+        if not p: continue
+        ex = driver(ctx, ["E 0 %d %d %s %d %d 0" % (nn, mm, p["resid"], 200000, 300 if quick else 3000)], "expub%d_%d" % (nn, mm))
+        if not ex: return
+        hd = kv(ex[0].split()[1:]); dls = [l[2:] for l in ex[1:] if l.startswith("D ")]; scheds = [l[2:] for l in ex[1:] if l.startswith("S ")]
+        info.setdefault("model_exploration", []).append({"workers": nn, "n_alpha": mm, "states": int(hd["states"]), "model_deadlocks": int(hd["deadlocks"]), "deadlock_schedules_forced": len(dls), "schedules_run": len(scheds)})
+        if int(hd["deadlocks"]) == 0 or not dls:
+            ctx.tie_ok = False; ctx.broken.append({"kind": "model of the published code has no deadlocked state", "config": [nn, mm]})
+        rc, out, err = harness(ctx, exp, ["P %d %d %d" % (p["pseed"], p["nF"], p["nneg"])] + ["RUN %d sched %s" % (nn, s_) for s_ in dls + scheds], timeout=900)
+        if rc != 0: return crash(ctx, rc, err, "published code, model schedules")
+        trs = [parse_tr(l) for l in out if l.startswith("TR ")]
+        for tr in trs[:len(dls)]:
+            if tr["status"] != "deadlock":
+                ctx.tie_ok = False
+                if len(ctx.broken) < 6: ctx.broken.append({"kind": "a deadlock schedule of the model (repaired=false) does not deadlock the published code", "schedule": tr["sched"], "status": tr["status"]})
+        check_runs(ctx, TP, p, out, "published code, schedule generated from the model", variant=0)
+    info.update({"runs": TP.runs, "deadlocked_runs": TP.dead, "traces_replayed_on_model_repaired_false": TP.replayed, "pthread_ops": TP.ops})
+    T.runs += TP.runs; T.ops += TP.ops; T.replayed += TP.replayed
+    ctx.note("phase A' (published code = %s): runs=%d deadlocks=%d replayed on the model with repaired=false=%d, witness deadlocks=%d/3" % (how, TP.runs, TP.dead, TP.replayed, nd))
 
 
 def get_prob(ctx, exe, pseed, nF, nneg):
@@ -141,6 +278,10 @@ def run(ctx):
         if rc != 0: return crash(ctx, rc, err, "witness schedule")
         check_runs(ctx, T, p, out, "lost-wake-up witness schedule (coordinator descheduled between unlock and lock)")
     ctx.note("phase A: witness schedules run=%d deadlocks=%d" % (T.runs, T.dead))
+
+    # ---- phase A': the code as published (regenerated) against the model with repaired=false ---------------------------
+    if ctx.violations == 0:
+        published_phase(ctx, T, exe, quick, dist)
 
     # ---- phase B: code -> model under random / PCT / starvation schedules ---------------------------------------------
     nprob = 14 if quick else 60
@@ -260,11 +401,13 @@ def run(ctx):
     ctx.coverage["input_distribution"] = dist
     ctx.coverage["pthread_ops_replayed"] = T.ops
     ctx.coverage["traces_replayed_on_model"] = T.replayed
+    ctx.coverage["worker_computations_compared_with_oracle"] = T.comps
+    ctx.coverage["teardowns_checked"] = T.teardowns
     ctx.assumptions += [
         "POSIX semantics of mutex / condition variable / create / join as implemented by the harness scheduler and by PsV.Sync (cond_wait = release+enqueue, then re-acquire after wake; spurious wake-ups allowed)",
         "sequentially consistent memory: data-race freedom on the trial records is proved at the protocol level (C12_no_data_race); races inside CHOLMOD's shared cholmod_common (statistics counters, 'Caution to the wind' in cholesky_solve.h) are not modelled",
         "the shim disables sched_setaffinity (CPU pinning of workers is not part of the protocol)",
-        "residuals are abstracted as an arbitrary comparison less(a,b); bitwise equality of x/H1/residual is tested against a thread-free oracle, not proved",
+        "the three straight-line pieces of floating-point code (worker body incl. calc_residual, residual comparison, copy loop) are deterministic functions of the values they read (Num.trial/lt/put); given that, schedule- and worker-count independence of x/H1/residual/feasible is proved (C12_data_*), and each worker record is compared bit for bit with the thread-free oracle's trial of the same index on every run",
         "modify_factor's update-vs-refactor heuristic divides by get_nthreads(): a worker-count dependence outside the hand-shake, observed only through the OMP_NUM_THREADS sweep (fresh cholmod_common per solve)",
     ]
 
